@@ -4,6 +4,7 @@ package gvc
 // named obligations with status discharged / refuted, accounted like SMT obligations.
 
 import (
+	"sort"
 	"fmt"
 	"go/types"
 	"strings"
@@ -44,6 +45,9 @@ func init() {
 	scanKinds["global_newint"] = scanGlobalNewInt
 	scanKinds["global_const"] = scanGlobalConst
 	scanKinds["defer_recover"] = scanDeferRecover
+	scanKinds["forbidden_calls"] = scanForbiddenCalls
+	scanKinds["value_receiver"] = scanValueReceiver
+	scanKinds["map_range_order"] = scanMapRangeOrder
 	scanKinds["handler_census"] = scanHandlerCensus
 	scanKinds["only_callers"] = scanOnlyCallers
 }
@@ -232,6 +236,230 @@ func scanDeferRecover(P *Program, sp ScanSpec) []*OblResult {
 		}
 	}
 	return []*OblResult{scanResult(sp.Name, "F8", false, "no deferred recover in the entry block")}
+}
+
+// stateMachineFuncs: functions of the module's state-machine packages (prefixes in Args[scope], comma
+// separated, relative to the module), leaving out CLI, simulation, mocks and test helpers.
+func stateMachineFuncs(P *Program, sp ScanSpec) []*ssa.Function {
+	var scope []string
+	for _, s := range strings.Split(sp.Args["scope"], ",") {
+		if s = strings.TrimSpace(s); s != "" {
+			scope = append(scope, s)
+		}
+	}
+	var out []*ssa.Function
+	for _, name := range sortedKeys(P.Funcs) {
+		fn := P.Funcs[name]
+		if fn.Synthetic != "" && !strings.HasPrefix(fn.Synthetic, "instance") {
+			continue // wrappers, thunks, bound methods; instantiations of generic functions stay
+		}
+		in := false
+		for _, s := range scope {
+			if strings.HasPrefix(name, s) {
+				in = true
+			}
+		}
+		if !in {
+			continue
+		}
+		file := ""
+		if fn.Pos().IsValid() && P.Fset != nil {
+			file = P.Fset.Position(fn.Pos()).Filename
+		} else if fn.Parent() != nil && fn.Parent().Pos().IsValid() && P.Fset != nil {
+			file = P.Fset.Position(fn.Parent().Pos()).Filename
+		}
+		skip := false
+		for _, pat := range []string{"/client/", "/simulation/", "/mocks/", "testutil", "test_utils.go", "test_common.go", ".pb.go", ".pb.gw.go", "_test.go"} {
+			if strings.Contains(file, pat) {
+				skip = true
+			}
+		}
+		if !skip {
+			out = append(out, fn)
+		}
+	}
+	return out
+}
+
+// forbidden_calls: no state-machine function calls one of the listed library functions (exact
+// "pkg.Func" names, or "pkg." for a whole package) except the callers in List. Sources of
+// node-local information (process environment, wall clock, randomness) must not reach block
+// execution.
+func scanForbiddenCalls(P *Program, sp ScanSpec) []*OblResult {
+	var pats []string
+	for _, s := range strings.Split(sp.Args["callees"], ",") {
+		if s = strings.TrimSpace(s); s != "" {
+			pats = append(pats, s)
+		}
+	}
+	allowed := map[string]bool{}
+	for _, a := range sp.List {
+		allowed[a] = true
+	}
+	var extra []string
+	seen := map[string]bool{}
+	for _, fn := range stateMachineFuncs(P, sp) {
+		for _, b := range fn.Blocks {
+			for _, in := range b.Instrs {
+				var cc *ssa.CallCommon
+				switch c := in.(type) {
+				case *ssa.Call:
+					cc = c.Common()
+				case *ssa.Defer:
+					cc = c.Common()
+				case *ssa.Go:
+					cc = c.Common()
+				}
+				if cc == nil {
+					continue
+				}
+				f := cc.StaticCallee()
+				if f == nil || f.Pkg == nil {
+					continue
+				}
+				full := f.Pkg.Pkg.Path() + "." + f.Name()
+				for _, p := range pats {
+					if full == p || (strings.HasSuffix(p, ".") && strings.HasPrefix(full, p)) {
+						caller := CanonName(fn)
+						seen[caller] = true
+						if !allowed[caller] {
+							extra = append(extra, caller+" calls "+full)
+						}
+					}
+				}
+			}
+		}
+	}
+	if len(extra) > 0 {
+		sort.Strings(extra)
+		return []*OblResult{scanResult(sp.Name, "F8", false, strings.Join(extra, "; "))}
+	}
+	return []*OblResult{scanResult(sp.Name, "F8", true, fmt.Sprintf("callers: %v", sortedKeys(seen)))}
+}
+
+// map_range_order: every `range` over a map in a state-machine function is of a shape whose result
+// cannot depend on the iteration order -- (a) the body only collects into a slice that the function
+// sorts afterwards, or (b) the body only inserts into / deletes from / looks up maps, accumulates
+// with commutative integer operations, and calls nothing -- or the function is in List (reviewed by
+// hand, with the reason; such functions are under their own contracts). One obligation per function.
+func scanMapRangeOrder(P *Program, sp ScanSpec) []*OblResult {
+	reviewed := map[string]string{}
+	for _, l := range sp.List {
+		if i := strings.Index(l, ":"); i > 0 {
+			reviewed[strings.TrimSpace(l[:i])] = strings.TrimSpace(l[i+1:])
+		} else {
+			reviewed[strings.TrimSpace(l)] = ""
+		}
+	}
+	var out []*OblResult
+	for _, fn := range stateMachineFuncs(P, sp) {
+		var ranges []*ssa.Range
+		sorts := false
+		for _, b := range fn.Blocks {
+			for _, in := range b.Instrs {
+				if r, ok := in.(*ssa.Range); ok {
+					if _, isMap := r.X.Type().Underlying().(*types.Map); isMap {
+						ranges = append(ranges, r)
+					}
+				}
+				if c, ok := in.(*ssa.Call); ok {
+					if f := c.Call.StaticCallee(); f != nil && f.Pkg != nil {
+						full := f.Pkg.Pkg.Path() + "." + f.Name()
+						if strings.HasPrefix(full, "sort.") || strings.HasPrefix(full, "slices.Sort") {
+							sorts = true
+						}
+					}
+				}
+			}
+		}
+		if len(ranges) == 0 {
+			continue
+		}
+		name := CanonName(fn)
+		oname := sp.Name + "." + name
+		if why, ok := reviewed[name]; ok {
+			out = append(out, scanResult(oname, "F8", true, "reviewed: "+why))
+			continue
+		}
+		lt := NewExec(P, DefaultConfig()).loopsOf(fn)
+		bad := ""
+		for _, r := range ranges {
+			// the loop whose head consumes this iterator
+			var body map[int]bool
+			for _, ld := range lt.order {
+				for _, in := range ld.header.Instrs {
+					if n, ok := in.(*ssa.Next); ok && n.Iter == ssa.Value(r) {
+						body = ld.body
+					}
+				}
+			}
+			if body == nil {
+				bad = "loop of the range not found"
+				break
+			}
+			appends, other := false, ""
+			for bi := range body {
+				for _, in := range fn.Blocks[bi].Instrs {
+					switch in := in.(type) {
+					case *ssa.Next, *ssa.Extract, *ssa.If, *ssa.Jump, *ssa.Phi, *ssa.DebugRef, *ssa.Lookup, *ssa.MapUpdate,
+						*ssa.BinOp, *ssa.UnOp, *ssa.FieldAddr, *ssa.Field, *ssa.IndexAddr, *ssa.Index, *ssa.Alloc, *ssa.Slice,
+						*ssa.Convert, *ssa.ChangeType, *ssa.MakeInterface, *ssa.MakeMap, *ssa.Store:
+						if st, ok := in.(*ssa.Store); ok {
+							// stores into fresh local allocations (composite literals, varargs) only
+							if rootAlloc(st.Addr) == nil {
+								other = "store through " + st.Addr.String()
+							}
+						}
+					case *ssa.Call:
+						if b, ok := in.Call.Value.(*ssa.Builtin); ok {
+							switch b.Name() {
+							case "append":
+								appends = true
+							case "delete", "len", "cap":
+							default:
+								other = "builtin " + b.Name()
+							}
+						} else if f := in.Call.StaticCallee(); f != nil && f.Pkg != nil && (f.Pkg.Pkg.Path() == "fmt" && strings.HasPrefix(f.Name(), "Sprint") || f.Pkg.Pkg.Path() == "strings" || f.Pkg.Pkg.Path() == "strconv") {
+							// value-level library functions
+						} else {
+							other = "call " + in.Call.String()
+						}
+					case *ssa.Return:
+						other = "return inside the loop"
+					default:
+						other = fmt.Sprintf("%T", in)
+					}
+				}
+			}
+			if other != "" {
+				bad = other
+				break
+			}
+			if appends && !sorts {
+				bad = "collects into a slice that is never sorted"
+				break
+			}
+		}
+		if bad != "" {
+			out = append(out, scanResult(oname, "F8", false, "map iteration whose effect may depend on the order: "+bad))
+		} else {
+			out = append(out, scanResult(oname, "F8", true, "collect-then-sort or commutative body"))
+		}
+	}
+	return out
+}
+
+// value_receiver: method Args[func] has a value receiver, so assignments to the receiver's fields
+// inside it are lost when it returns (no state survives the call).
+func scanValueReceiver(P *Program, sp ScanSpec) []*OblResult {
+	fn := P.FindFunc(sp.Args["func"])
+	if fn == nil || fn.Signature.Recv() == nil {
+		return []*OblResult{scanResult(sp.Name, "F8", false, "method not found: "+sp.Args["func"])}
+	}
+	if _, isPtr := fn.Signature.Recv().Type().Underlying().(*types.Pointer); isPtr {
+		return []*OblResult{scanResult(sp.Name, "F8", false, "pointer receiver: writes to the receiver survive the call")}
+	}
+	return []*OblResult{scanResult(sp.Name, "F8", true, "value receiver")}
 }
 
 func rootGlobal(v ssa.Value) *ssa.Global {
